@@ -38,9 +38,28 @@ THEOREMS = [
     "Opacus.C15.generated_registry_matches_model",
     "Opacus.C15.generated_table_complete",
     "Opacus.C15.generated_table_matches_model",
+    "Opacus.C15.makePrivate_ok_iff",
     "Opacus.C15.rejects_eval",
     "Opacus.C15.rejects_foreign_optimizer_params",
+    "Opacus.C15.rejects_unsupported_layers",
+    "Opacus.C15.rejects_trainable_with_buffers",
+    "Opacus.C15.accepts_implies_independent_general",
+    "Opacus.C15.accepts_implies_independent",
+    "Opacus.C15.makePrivate_accepts_implies_independent",
+    "Opacus.C15.accepts_implies_independent_partial",
+    "Opacus.C15.accepts_implies_independent_asCoded_fails",
     "Opacus.C15.bn_affine_false_counterexample",
+    "Opacus.C15.bn_frozen_counterexample",
+    "Opacus.C15.in_trs_no_affine_counterexample",
+    "Opacus.C15.fix_then_validate_ok",
+    "Opacus.C15.fix_pure",
+    "Opacus.C15.fix_then_old_optimizer_rejected",
+    "Opacus.C15.fix_preserves_other_params",
+    "Opacus.C15.replace_root",
+    "Opacus.C15.replace_root_lstm",
+    "Opacus.C15.bn_default_groups_valid",
+    "Opacus.C15.fixed_in_keeps_buffers_counterexample",
+    "Opacus.C15.fix_kwargs_counterexample",
 ]
 RULE = (
     "case = random module tree over the layer zoo (BatchNorm1d/2d/3d/SyncBatchNorm, InstanceNorm1d/2d/3d with any affine / "
@@ -279,11 +298,13 @@ def describe_tree(m):
 
 
 def accept_oracle(m, seed, context="validate"):
-    """PROPERTY: a module ModuleValidator.validate accepts is sample-independent and keeps no
-    data-dependent running statistics.  Returns None or (key, what, replay)."""
+    """PROPERTY: a module ModuleValidator.validate accepts is in training mode, sample-independent and
+    keeps no data-dependent running statistics.  Returns None or (key, what, replay)."""
     MV, GSM, _ = opacus()
-    if MV.validate(m, strict=False):
+    if MV.validate(m, strict=False) or not MV.is_valid(m):
         return None
+    if not m.training:
+        return ("C15:validate:eval-accepted", f"ModuleValidator.validate accepts the eval-mode model {describe_tree(m)}", {"tree": describe_tree(m)})
     for path, mod in m.named_modules():
         if zoo.tname(mod) in zoo.CONTAINERS or zoo.kids(mod) and zoo.leaf_shape(mod) is None:
             continue
@@ -558,6 +579,16 @@ def correspondence(ctx, models, variant):
             ctx.case((sig, "validate"), nontrivial=has_registered(m) or bool(real["mv"]), sample=describe_tree(m), kind="validate:" + ("reject" if real["mv"] or real["gsm"] else "accept"))
             for e in real["mv"]:
                 ctx.count("error:" + e)
+            # the trusted composition claim, on the whole tree: buffers change iff some module updates
+            # statistics; if no module couples, no other row of the output moves
+            sem = [x.split(":") for x in rep.rsplit(" sem=", 1)[1].split(",")]
+            any_c, any_u = any(x[1] == "1" for x in sem), any(x[2] == "1" for x in sem)
+            c, u, det = zoo.independence_probe(m, spec["C"], spec["L"], seed)
+            if u != any_u or (c and not any_c):
+                ctx.mismatch("whole-tree-semantics", {"op": "validate", "spec": spec, "seed": seed, "tree": describe_tree(m)},
+                             {"couples": c, "updates": u, "probe": det}, {"some module couples": any_c, "some module updates": any_u})
+            else:
+                ctx.count("whole-tree-probe:" + ("coupled" if c else "independent"))
             if impl == model and real["consistent"]:
                 ctx.validated()
             else:
@@ -641,10 +672,30 @@ def check_semantics(ctx, variant):
 
 # =========================================================================== witnesses of the Lean counterexamples
 def witnesses():
-    def bn_affine_false():
-        return nn.Sequential(nn.Linear(4, 4), nn.BatchNorm1d(4, affine=False))
+    """the witnesses of the Lean `_counterexample` theorems, as real modules: name -> (builder, op, kwargs)"""
+    def frozen(m):
+        m.requires_grad_(False)
+        return m
 
-    return {"bn_affine_false_counterexample": bn_affine_false}
+    return {
+        "bn_affine_false_counterexample": (lambda: nn.Sequential(nn.Linear(4, 4), nn.BatchNorm1d(4, affine=False)), "accept", None),
+        "bn_frozen_counterexample": (lambda: nn.Sequential(nn.Linear(4, 4), frozen(nn.BatchNorm1d(4))), "accept", None),
+        "in_trs_no_affine_counterexample": (lambda: nn.Sequential(nn.Linear(4, 4), nn.InstanceNorm1d(4, affine=False, track_running_stats=True)), "accept", None),
+        "fixed_in_keeps_buffers_counterexample": (lambda: nn.InstanceNorm1d(4, affine=True, track_running_stats=True), "fix", {"rbi": None, "ng": None, "extra": 0}),
+        "fix_kwargs_counterexample:in": (lambda: nn.InstanceNorm1d(4, affine=True), "fix", {"rbi": None, "ng": 1, "extra": 0}),
+        "fix_kwargs_counterexample:lstm": (lambda: nn.Sequential(nn.BatchNorm1d(4), nn.LSTM(4, 4)), "fix", {"rbi": None, "ng": 2, "extra": 0}),
+        "fix_kwargs_counterexample:mha": (lambda: nn.MultiheadAttention(4, 1), "fix", {"rbi": None, "ng": 2, "extra": 0}),
+    }
+
+
+def run_witness(name):
+    mk, op, kw = witnesses()[name]
+    m = mk()
+    zoo._randomize(m, torch.Generator().manual_seed(3))
+    if op == "accept":
+        r = accept_oracle(m, 5)
+        return [r] if r else []
+    return fix_oracle(m, kw, 5)
 
 
 def search_one(ctx, spec, kw, seed):
@@ -658,6 +709,49 @@ def search_one(ctx, spec, kw, seed):
         ctx.property_failure(r[0], r[1], dict(r[2], failing_input={"op": "fix", "spec": spec, "kw": kw, "seed": seed}))
 
 
+def exhaustive_specs():
+    """every tree of depth ≤ 2 over a catalogue of leaves (thorough tier): a leaf as root, Sequential of
+    one or two leaves, Box (trainable or frozen) of one leaf"""
+    C, L = 4, 4
+    leaves = []
+    B = [False, True]
+    for k in ("BatchNorm1d", "InstanceNorm1d"):
+        for a in B:
+            for t in B:
+                leaves.append({"k": k, "a": {"num_features": C, "affine": a, "track_running_stats": t}})
+    leaves += [
+        {"k": "BatchNorm2d", "a": {"num_features": C, "affine": True, "track_running_stats": True}},
+        {"k": "SyncBatchNorm", "a": {"num_features": C, "affine": False, "track_running_stats": True}},
+        {"k": "InstanceNorm3d", "a": {"num_features": C, "affine": True, "track_running_stats": True}},
+        {"k": "LSTM", "a": {"input_size": L, "hidden_size": L, "num_layers": 1, "bias": True, "batch_first": True, "dropout": 0.0, "bidirectional": False}},
+        {"k": "LSTM", "a": {"input_size": L, "hidden_size": L // 2, "num_layers": 2, "bias": False, "batch_first": False, "dropout": 0.0, "bidirectional": True}},
+        {"k": "MultiheadAttention", "a": {"embed_dim": L, "num_heads": 1, "bias": True, "add_bias_kv": False, "add_zero_attn": False, "kdim": None, "vdim": None, "batch_first": False}},
+        {"k": "MultiheadAttention", "a": {"embed_dim": L, "num_heads": 2, "bias": False, "add_bias_kv": True, "add_zero_attn": False, "kdim": L - 1, "vdim": L - 2, "batch_first": False}},
+        {"k": "GroupNorm", "a": {"num_groups": 2, "num_channels": C, "affine": True}},
+        {"k": "Linear", "a": {"in_features": L, "out_features": L, "bias": True}},
+        {"k": "Conv1d", "a": {"in_channels": C, "out_channels": C, "kernel_size": [3], "padding": [1], "bias": True}},
+        {"k": "LayerNorm", "a": {"normalized_shape": L, "elementwise_affine": True}},
+    ]
+    leaves = leaves + [dict(copy.deepcopy(x), frozen="all") for x in leaves]
+    roots = [copy.deepcopy(x) for x in leaves]
+    roots += [{"k": "Sequential", "ch": [copy.deepcopy(x)]} for x in leaves]
+    roots += [{"k": "Sequential", "ch": [copy.deepcopy(x), copy.deepcopy(y)]} for x in leaves for y in leaves]
+    roots += [{"k": "Box", "a": {"trainable": tr}, "ch": [copy.deepcopy(x)]} for x in leaves for tr in B]
+    return [{"C": C, "L": L, "root": r, "root_eval": False, "values": 17 + i} for i, r in enumerate(roots)]
+
+
+def load_corpus():
+    d = core.CORPUS / "C15"
+    out = []
+    if d.is_dir():
+        for f in sorted(d.glob("*.json")):
+            j = json.loads(f.read_text())
+            fi = j.get("failing_input") or j.get("case") or j
+            if "spec" in fi:
+                out.append((fi["spec"], int(fi.get("seed", 1))))
+    return out
+
+
 def run(ctx):
     with rig.default_dtype(torch.float64):
         variant = detect_variant(ctx)
@@ -665,14 +759,23 @@ def run(ctx):
         ctx.log("variant implemented by this tree:", ctx.variant)
         regenerate(ctx, variant)
         check_semantics(ctx, variant)
-        models = [(zoo.gen_spec(ctx.rng), ctx.rng.randrange(1 << 30)) for _ in range(ctx.n(110, 2500))]
-        correspondence(ctx, models, variant)
+        corpus = load_corpus()
+        ctx.extra["corpus_cases"] = len(corpus)
+        models = corpus + [(zoo.gen_spec(ctx.rng), ctx.rng.randrange(1 << 30)) for _ in range(ctx.n(300, 2000))]
+        if ctx.thorough:
+            ex = exhaustive_specs()
+            ctx.extra["exhaustive_small_scope"] = f"{len(ex)} trees: every leaf of a 38-layer catalogue as root, in Sequential (1 and 2 children), in trainable / frozen Box"
+            models += [(sp, 100 + i) for i, sp in enumerate(ex)]
+        for i in range(0, len(models), 400):
+            correspondence(ctx, models[i:i + 400], variant)
         # replay of the Lean witnesses on the real code + search with the property oracle
-        for name, mk in witnesses().items():
-            r = accept_oracle(mk(), 5)
-            if r:
+        for name in witnesses():
+            ctx.count("witness-replayed")
+            for r in run_witness(name):
                 ctx.property_failure(r[0], r[1], dict(r[2], failing_input={"op": "witness", "name": name}))
-        for _ in range(ctx.n(60, 1500)):
+        for sp, sd in corpus:
+            search_one(ctx, sp, {"rbi": None, "ng": None, "extra": 0}, sd)
+        for _ in range(ctx.n(150, 1500)):
             search_one(ctx, zoo.gen_spec(ctx.rng, flips=False), gen_kw(ctx.rng), ctx.rng.randrange(1 << 30))
 
 
@@ -682,8 +785,7 @@ def replay(ctx, rp):
         op = fi.get("op")
         res = []
         if op == "witness":
-            r = accept_oracle(witnesses()[fi["name"]](), 5)
-            res = [r] if r else []
+            res = run_witness(fi["name"])
         elif op in ("validate", "make_private", "fix"):
             m = zoo.build(fi["spec"])
             if op == "validate":
